@@ -696,7 +696,6 @@ def plan_in_form(g, form, n):
 
 
 PLAN_FORMS = ['single', 'tuple', 'float', 'int8', 'series', 'ndarray', 'lists', 'frame']
-BOOL_SIGNATURE = {'class': 'IterativeCondGFormula', 'plan_dtype': 'bool'}
 
 
 def ice_specs(K, nlev):
@@ -837,8 +836,7 @@ def check_ice_history(chk, drv, rng, K, nlev, length):
         ok = got[0] == 'ok' and want[0] == 'ok' and abs(got[1] - want[1]) <= 1e-12
         chk.d(ok, 'plan given as booleans == the same plan given as 0/1',
               None if ok else {'kind': 'ice', 'K': K, 'nlev': nlev, 'models': specs['sat'], 'plan': list(map(int, g)),
-                               'form': form, 'impl': got, 'as_integers': want, 'frame': frame_record(frames[j])},
-              signature=dict(BOOL_SIGNATURE) if got[0] == 'exc' else None)
+                               'form': form, 'impl': got, 'as_integers': want, 'frame': frame_record(frames[j])})
 
 
 def ice_hist_case(frames, K, nlev, ops, i, r, **extra):
